@@ -231,7 +231,22 @@ impl Property for C08 {
             Tier::Thorough => 250_000,
         }
     }
-    fn generate(&self, seed: u64, idx: u64, _tier: Tier) -> Scenario {
+    fn generate(&self, seed: u64, idx: u64, tier: Tier) -> Scenario {
+        // (ii) whole-node invariant monitor: every 10th case is a whole-node scenario of the
+        // C09/C10/C11/C12 families with the shape invariant evaluated at every scheduling point
+        if idx % 25 == 24 {
+            let sub = idx / 25;
+            let mut sc = match sub % 4 {
+                0 => super::c09::C09.generate(seed, sub, Tier::Quick),
+                1 => super::c12::C12.generate(seed, sub, Tier::Quick),
+                2 => super::c10::C10.generate(seed, sub, Tier::Quick),
+                _ => super::c11::C11.generate(seed, sub, Tier::Quick),
+            };
+            // keep it affordable
+            let _ = tier;
+            sc.net.check_table_shape = true;
+            return sc;
+        }
         let mut rng = Rng::new(seed ^ 0xC08 ^ idx.wrapping_mul(0x9E37_79B9_7F4A_7C15));
         let mut sc = Scenario::new("c08_table");
         sc.entropy_seed = rng.next();
@@ -314,12 +329,29 @@ impl Property for C08 {
         sc
     }
     fn run(&self, sc: &Scenario) -> Result<RunLog, String> {
-        run_table(sc)
+        if sc.family == "c08_table" {
+            run_table(sc)
+        } else {
+            crate::exec::run_scenario(sc)
+        }
     }
     fn check(&self, sc: &Scenario, run: &RunLog) -> Verdict {
         let mut v = Verdict::default();
         for p in &run.panics {
             v.violate("C08", "panic", 0, format!("table operation panicked: {p}"));
+        }
+        if sc.family != "c08_table" {
+            // whole-node run: only the live shape invariant is judged here
+            for e in &run.log {
+                if let Ev::Invariant { t, node, clause, detail } = e {
+                    v.violate("C08", clause, *t, format!("live routing table of {node} at {t} ms: {detail}"));
+                }
+            }
+            let checks = run.stats.get("shape_checks").copied().unwrap_or(0);
+            v.hit_n("whole_node_shape_checks", checks);
+            v.nontrivial = checks > 10;
+            v.sample = json!({"family": sc.family, "whole_node": true, "shape_checks": checks, "stubs": sc.world.stubs.len(), "virtual_ms": run.end_ms});
+            return v;
         }
         for e in &run.log {
             if let Ev::Invariant { t, clause, detail, .. } = e {
@@ -359,6 +391,6 @@ impl Property for C08 {
         vec!["table driven through the cfg(btdht_verif) re-exports (hook H2); node status read at the same virtual instant before and after each operation"]
     }
     fn required_reach(&self) -> Vec<&'static str> {
-        vec!["bucket_split", "node_left", "full_good_bucket", "twenty_or_more_buckets"]
+        vec!["bucket_split", "node_left", "full_good_bucket", "twenty_or_more_buckets", "whole_node_shape_checks"]
     }
 }
